@@ -44,6 +44,9 @@ def cell(t, transport, prefix, how):
         if transport == "ipc":
             ops.append("ipcpaths")
     ops += ["peers_eof", "tasks"]
+    if prefix in ("accepted", "traffic", "bound") and transport != "ipc":
+        # the endpoint is free again: a new socket can bind it at once
+        ops.append("rebind 0")
     return " / ".join(ops)
 
 
@@ -96,6 +99,8 @@ def judge(line, obs, orc):
             return "setup failed: " + tk
     if any(tk.startswith("b=err") for tk in toks):
         return "setup failed (bind): " + obs[:100]
+    if "rb#0" in kv and kv["rb#0"] != "ok":
+        return "the endpoint of a %s socket (%s) cannot be bound again after %s: %s" % (t, prefix, how, kv["rb#0"])
     if how == "close" and kv.get("close") != "0":
         return "close() reported errors: " + str(kv.get("close"))
     # ownership model: after drop/close nothing is listened on, every connection is released except those
